@@ -222,6 +222,9 @@ class RenderContext:
             try:
                 return obj["size"]
             except (KeyError, IndexError, TypeError):
+                if isinstance(obj, range) and obj.step == 1:
+                    # Also for a range with more items than `len` can count.
+                    return max(0, obj.stop - obj.start)
                 if isinstance(obj, Sized):
                     return len(obj)
                 raise
@@ -259,6 +262,9 @@ class RenderContext:
             try:
                 return await _get_item(obj, "size")
             except (KeyError, IndexError, TypeError):
+                if isinstance(obj, range) and obj.step == 1:
+                    # Also for a range with more items than `len` can count.
+                    return max(0, obj.stop - obj.start)
                 if isinstance(obj, Sized):
                     return len(obj)
                 raise
